@@ -52,10 +52,19 @@ def run(op, a):
         txs = [mk_tx(d) for d in a[2]]
         head = [[t.GetTxid() for t in txs], [t.GetHash() for t in txs],
                 [1 if t.has_witness() else 0 for t in txs]]
+        # every other case hands the constructor MUTABLE transactions and edits them afterwards: the
+        # block took snapshots, so its roots stay those of the transactions as they were
+        from bitcoin.core import CMutableTransaction
+        handed = [CMutableTransaction.from_tx(t) for t in txs] if len(a[1]) == 32 and (a[1][0] + len(txs)) % 2 else txs
         try:
-            blk = CBlock(2, a[0], a[1], 0, 0, 0, txs)
+            blk = CBlock(2, a[0], a[1], 0, 0, 0, handed)
         except Exception as e:  # noqa
             return head + [vals.classify(e)]
+        if handed is not txs:
+            for m in handed:
+                m.nLockTime = (m.nLockTime + 1) % (1 << 32)
+                if m.vout:
+                    m.vout[0].nValue += 1
         return head + [[blk.hashMerkleRoot, obs(blk.calc_merkle_root), obs(blk.calc_witness_merkle_root)]]
     if op == 4:
         cb = CTransaction([CTxIn(COutPoint(), CScript(b'\x01\x01'))], [CTxOut(0, CScript(s)) for s in a[0]])
